@@ -73,6 +73,7 @@ func runC01(c *Ctx) {
 	c04R2(c)
 	c01R6(c, "C01.R6")
 	c01Served(c)
+	c01HostSelection(c)
 	if g := newGossipAnchors(c.P); g.ok {
 		c02R3(c, g)
 	}
@@ -1208,4 +1209,61 @@ func c08ErrorBody(c *Ctx) {
 	if p.Func("server/proxy", "errorResponse") == nil || n == 0 {
 		c.fail("C08.R3", "errorResponse-helper", token.NoPos, "the proxy's errorResponse helper was not found")
 	}
+}
+
+// c01HostSelection (C01.R8): the host the endpoint id is derived from is
+// SplitHostPort's host when the Host header carries a port and the Host header
+// itself when it does not (SplitHostPort fails) - not the other way round.
+func c01HostSelection(c *Ctx) {
+	p := c.P
+	fn := p.Func(pxPkg, "EndpointIDFromRequest")
+	if fn == nil {
+		c.fail("C01.anchor", "EndpointIDFromRequest", token.NoPos, "not found")
+		return
+	}
+	fs := computeFacts(fn)
+	var split *ssa.Call
+	allInstrs(fn, func(i ssa.Instruction) {
+		if cl, ok := i.(*ssa.Call); ok && commonName(&cl.Call) == "net.SplitHostPort" {
+			split = cl
+		}
+	})
+	if split == nil {
+		return // no port stripping: nothing to select
+	}
+	isErr := func(v ssa.Value) bool {
+		ex, ok := strip(v).(*ssa.Extract)
+		return ok && ex.Tuple == ssa.Value(split) && ex.Index == 2
+	}
+	bad := ""
+	n := 0
+	allInstrs(fn, func(i ssa.Instruction) {
+		ph, ok := i.(*ssa.Phi)
+		if !ok {
+			return
+		}
+		hasSplit := false
+		for _, e := range ph.Edges {
+			if ex, ok := strip(e).(*ssa.Extract); ok && ex.Tuple == ssa.Value(split) && ex.Index == 0 {
+				hasSplit = true
+			}
+		}
+		if !hasSplit {
+			return
+		}
+		n++
+		for k, e := range ph.Edges {
+			facts := fs.OnEdge(ph.Block().Preds[k], ph.Block())
+			if ex, ok := strip(e).(*ssa.Extract); ok && ex.Tuple == ssa.Value(split) && ex.Index == 0 {
+				if !anyFact(facts, func(f Fact) bool { return cmpFact(f, token.EQL, isErr, isNilConst) }) {
+					bad = "the split host is used although SplitHostPort failed"
+				}
+				continue
+			}
+			if !strings.HasSuffix(path(e), ".&Host") || !anyFact(facts, func(f Fact) bool { return cmpFact(f, token.NEQ, isErr, isNilConst) }) {
+				bad = "the fallback is not the Host header under a failed SplitHostPort"
+			}
+		}
+	})
+	c.check(bad == "" && n > 0, "C01.R8", fnName(fn)+"/host-selection", split.Pos(), "split host when a port is present, the Host header otherwise", "the host the endpoint id is taken from is selected the wrong way round: "+bad+" (requests whose Host header has no port - or has one - are answered 400 although their endpoint is served)")
 }
